@@ -70,8 +70,8 @@ def spelling(draw, segs: list[str], root_name: str = "capsule", hostile=True):
     # structural noise
     n_ops = draw(st.integers(0, 3))
     for _ in range(n_ops):
-        op = draw(st.sampled_from(["dot", "updown", "dupslash", "above-root", "enc-dot", "sibling"] if hostile
-                                  else ["dot", "updown", "dupslash"]))
+        op = draw(st.sampled_from(["dot", "updown", "dupslash", "above-root", "enc-dot", "sibling", "updown-mixed", "enc2-dotdot"] if hostile
+                                  else ["dot", "updown", "dupslash", "updown-mixed", "enc2-dotdot"]))
         pos = draw(st.integers(0, len(parts)))
         if op == "dot":
             parts.insert(pos, ".")
@@ -79,6 +79,16 @@ def spelling(draw, segs: list[str], root_name: str = "capsule", hostile=True):
         elif op == "updown":
             parts[pos:pos] = [draw(st.sampled_from(["zz", "public", "private", "sub", "%ff", "%c0%af", "%E2%28", "%zz", "a%00b"])), ".."]
             labels.append("dotdot")
+        elif op == "updown-mixed":
+            # down one (or two) segments and up again, the way up written half literally and half encoded
+            junk = draw(st.sampled_from(["zz", "public", "sub"]))
+            parts[pos:pos] = draw(st.sampled_from([[junk, "%2e", ".."], [junk, "yy", "%2e%2e", ".."], [junk, "yy", "..", "%2E%2E"], [junk, "", ".."]]))
+            labels.append("dotdot")
+        elif op == "enc2-dotdot":
+            # a doubly percent-encoded '..': decoded once it is an ordinary (non-existent) name, decoded twice it climbs
+            junk = draw(st.sampled_from(["zz", "public", "pub.gmi"]))
+            parts[pos:pos] = [junk, draw(st.sampled_from(["%252e%252e", "%252E%252E", "%25%32%65%25%32%65"]))]
+            labels.append("enc2-dotdot")
         elif op == "dupslash":
             parts.insert(pos, "")
             labels.append("dupslash")
